@@ -129,7 +129,7 @@ func (hs *ssDHClientHandshake) parseServerHandshake(resp []byte) (int, []byte, e
 			return 0, nil, ErrInvalidHandshake
 		}
 		return 0, nil, errMarkNotFoundYet
-	} else if len(resp) < pos+2*macLength {
+	} else if len(resp) < uniformdh.Size+pos+2*macLength {
 		// Didn't receive the full M_S.
 		return 0, nil, errMarkNotFoundYet
 	}
